@@ -616,7 +616,10 @@ impl<'a> Exec<'a> {
         let ev_end = self.ev_index();
 
         // ---- checks after every step
-        if let Err(e) = check_layout(self.db()) {
+        // The extent invariant is C02's oracle (C13 and C10 include it by their statements);
+        // other checks are decided by their own oracles only.
+        let check_extents = matches!(cfg.property.as_str(), "C02" | "C13" | "C10");
+        if check_extents && let Err(e) = check_layout(self.db()) {
             let clause = if op.is_refused() || self.refused_seen { "after-refusal-extents" } else { "extents" };
             return Err(viol(cfg, step, op, clause, e));
         }
@@ -634,7 +637,7 @@ impl<'a> Exec<'a> {
         }
         self.probe(op, &before, file_len_before);
         if matches!(op, Op::Create { .. } | Op::Append { .. } | Op::WriteAt { .. } | Op::TruncWrite { .. }) {
-            if let Err(e) = self.placement_rule(op, &before, &touches) {
+            if check_extents && let Err(e) = self.placement_rule(op, &before, &touches) {
                 return Err(viol(cfg, step, op, "placement", e));
             }
         }
